@@ -57,7 +57,7 @@ impl Method for WSMA {
 	type Output = Self::Input;
 
 	fn new(length: Self::Params, value: &Self::Input) -> Result<Self, Error> {
-		if length > MAX_PERIOD {
+		if length == 0 || length > MAX_PERIOD {
 			return Err(Error::WrongMethodParameters);
 		}
 
